@@ -353,7 +353,7 @@ def threads_config(h, pair, nthreads_list):
 def build_configs(tier, seed):
     quick = tier == 'quick'
     cfgs = []
-    pairs = ['1x1', '2x1', '1x2', '2x2', '3x2', '2x3'] if quick else list(PAIRS)
+    pairs = ['1x1', '2x1', '1x2', '2x2', '3x2', '2x3'] if quick else [p for p in PAIRS if not p.startswith('vec')]
     cfgs.append(dict(name='local=vec4x4/in-place-integrand', fn=threads_config, kw=dict(pair='vec4x4', nthreads_list=[1, 3]), opts=dict(timeout=900)))
     if not quick:
         cfgs.append(dict(name='local=vec6x6/in-place-integrand', fn=threads_config, kw=dict(pair='vec6x6', nthreads_list=[2, 5]), opts=dict(timeout=900)))
